@@ -238,8 +238,8 @@ def run(ctx):
             m = len(edges)
             if m <= 10:
                 pats = list(D.all_patterns(m))
-                if len(pats) > 64 and not thorough:
-                    pats = rng.sample(pats, 64)
+                if len(pats) > (256 if thorough else 64):
+                    pats = rng.sample(pats, 256 if thorough else 64)
                 for border in pats:
                     bl = G.blocks_of_cut(n, edges, border)
                     cnt = {}
